@@ -130,7 +130,7 @@ func c08ErrDiscipline(c *Ctx, a *sketchAnchors) {
 			continue
 		}
 		nfn++
-		paths, complete := execPlain(c, f, nil, 2) // every reachable function, helpers included, is analysed on its own: no interprocedural inlining
+		paths, complete := pathsOf(c.P, f, nil, execOpts{MaxVisits: 2, Pure: c.Mod.PureCall, NoDynInline: true}) // every reachable function, helpers and function literals included, is analysed on its own: no inlining of any kind
 		if !complete {
 			c.R.undecided(rule, "paths/"+shortFn(f), shortFn(f), c.fpos(f), "path enumeration completes", fmt.Sprintf("more than %d paths", len(paths)))
 			continue
